@@ -43,14 +43,6 @@ Fixpoint lc_lookup (tbl : list (N * text)) (c : N) : text :=
 Definition lc_of (x : sx) : N -> text :=
   lc_lookup (map (fun e => (sx_N (sx_nth 0 e), map sx_N (tl (sx_list e)))) (sx_list x)).
 
-(* class 1: lower-casing changes the UTF-8 length of a character of the searched text *)
-Definition len_pres (lc : N -> text) (c : N) : bool :=
-  match lc c with
-  | [c'] => clen c' =? clen c
-  | _ => false
-  end.
-Definition Known_C07_nocase_len (lc : N -> text) (hay : text) : bool := negb (forallb (len_pres lc) hay).
-
 Definition mem_N (s : text) (c : N) : bool := existsb (fun x => (x =? c)%N) s.
 
 (* regex oracle decoding *)
